@@ -21,7 +21,7 @@ EXPLANATION = (
     "(sa/algebra.py: polynomials over the parameters, sqrt/exp/cos/abs/pow as function symbols) and compared. (2) Extended-sign "
     "abstract interpretation: x = NaN yields exactly {NaN}; x = +-inf yields a number in {zero, pos}. (3) def-use: height and every "
     "shape parameter reach the result; is_monotonic() is True iff tsukamoto() is overridden (a computed answer needs an override); "
-    "elementwise safety of every kernel (C02/V1)"
+    "elementwise safety of every kernel (C02/V1); operators only after scalar() coercion (V8); kernels are pure functions of x and the parameters (K1)"
 )
 ASSUMPTIONS = [
     "real arithmetic: equality with the documented closed form is decided over the reals; floating-point rounding at the ends of a support "
